@@ -286,7 +286,14 @@ fn uf_find(p: &mut [usize], mut x: usize) -> usize {
 
 impl RefGraph {
 	fn new(variant: Variant, edge_bits: u32, keys: [u64; 4], with_table: bool) -> RefGraph {
-		let num_edges = 1u64 << edge_bits;
+		RefGraph::new_ext(variant, edge_bits, keys, with_table, 0)
+	}
+
+	/// `ext` > 0 builds the graph over edge indices 0 .. 2^(edge_bits+ext) with the node mask of `edge_bits`:
+	/// not a graph of the family, only a generator of out-of-range proofs that would be cycles if the edge
+	/// range were not enforced.
+	fn new_ext(variant: Variant, edge_bits: u32, keys: [u64; 4], with_table: bool, ext: u32) -> RefGraph {
+		let num_edges = 1u64 << (edge_bits + ext);
 		let node_mask = (1u64 << variant.node_bits(edge_bits)) - 1;
 		let mut g = RefGraph {
 			variant,
@@ -296,7 +303,7 @@ impl RefGraph {
 			node_mask,
 			table: None,
 		};
-		if with_table && edge_bits <= 20 {
+		if with_table && edge_bits + ext <= 20 {
 			let mut t = Vec::with_capacity(num_edges as usize);
 			if variant == Variant::Cuckatoo {
 				for i in 0..num_edges {
@@ -1905,7 +1912,7 @@ fn finish(shared: &Arc<Shared>) -> ! {
 		 (10 518 300 per header, 3 headers per variant); random ascending tuples of 32- and 64-edge graphs. \
 		 (b) reference solver (DFS over the junction relation) on graphs of 2^8..2^16 edges, proof sizes 8 and 42: honest cycles, repo find_cycles solutions (cuckatoo), \
 		 unions of two/three cycles with exactly L edges (disjoint, sharing one node, sharing a path), cycles of wrong length, open paths, cycles of the underlying \
-		 undirected graph that violate direction / node-pair port, ~130 mutations per honest cycle (one nonce +-1 / sibling / random, swaps, reversal, rotation, duplicates, \
+		 undirected graph that violate direction / node-pair port, cycles through edge indices >= 2^edge_bits of the range-extended graph, ~130 mutations per honest cycle (one nonce +-1 / sibling / random, swaps, reversal, rotation, duplicates, \
 		 out of range incl. aliases nonce+2^edge_bits and huge values, wrong counts), same nonces under another header / header nonce / variant / edge_bits. \
 		 (c) create_pow_context and verify_size on all four chain types: published 42-cycle vectors (29..33 bits) at hard-fork boundary heights, headers mined by the reference solver \
 		 and their header-level near misses, random proofs at 7..62 edge bits. (d) to_difficulty / to_unscaled_difficulty called twice and compared with an own formula over \
@@ -1975,6 +1982,7 @@ fn finish(shared: &Arc<Shared>) -> ! {
 			("cycle_of_wrong_length", 100),
 			("open_path", 100),
 			("cycle_ignoring_direction_or_port", 50),
+			("cycle_through_out_of_range_edges", 50),
 			("cycle_under_other_header", 100),
 			("cycle_under_other_header_nonce", 100),
 			("cycle_of_other_variant", 400),
@@ -2362,6 +2370,18 @@ fn solve_job(w: &Worker, spec: SolveSpec) {
 				let (lc, _) = find_cycles(&b.g, &ladj, l, l, 300_000, 3, false, p.below(n_edges));
 				for c in lc {
 					b.check(w, wl, "cycle_ignoring_direction_or_port", &sorted(c), &mut st);
+				}
+			}
+			// cycles of the graph extended beyond the edge range (same nodes, edge indices up to 2N-1)
+			{
+				let xg = RefGraph::new_ext(v, eb as u32, b.g.keys, true, 1);
+				let xadj = Adjacency::build(&xg, JoinMode::Strict);
+				let from = if seeds % 2 == 0 { n_edges + p.below(n_edges) } else { p.below(n_edges) };
+				let (xc, _) = find_cycles(&xg, &xadj, l, l, 300_000, 2, false, from);
+				for c in xc {
+					if c.iter().any(|e| *e >= n_edges) {
+						b.check(w, wl, "cycle_through_out_of_range_edges", &sorted(c), &mut st);
+					}
 				}
 			}
 			// random ascending tuples
